@@ -3,15 +3,16 @@
 W=$1; ID=$2; PROP=$3
 cd $W || exit 2
 export CARGO_TARGET_DIR=$W/target CARGO_NET_OFFLINE=true
-git diff --quiet -- src && git apply patch.diff
+git checkout -q -- src
+git apply patch.diff || { echo "patch.diff does not apply"; exit 2; }
 git diff -- src > /tmp/seed-$ID.diff
 mv tests/seeded_demo.rs /tmp/seeded_demo-$ID.rs
 SUITE=$(cargo test --offline --no-fail-fast 2>&1 | grep -E "^test result" | tr '\n' ' ')
 cp /tmp/seeded_demo-$ID.rs tests/seeded_demo.rs
 RED=$(cargo test --offline --test seeded_demo 2>&1 | grep -E "^test result" | tr '\n' ' ')
-git stash push -q -- src
+git apply -R /tmp/seed-$ID.diff
 GREEN=$(cargo test --offline --test seeded_demo 2>&1 | grep -E "^test result" | tr '\n' ' ')
-git stash pop -q
+git apply /tmp/seed-$ID.diff
 echo "suite(with patch): $SUITE"; echo "demo(with patch): $RED"; echo "demo(without): $GREEN"
 D=/verif/seeded/$ID; mkdir -p $D
 cp /tmp/seed-$ID.diff $D/patch.diff; cp tests/seeded_demo.rs $D/seeded_demo.rs; cp notes.md $D/notes.md 2>/dev/null
